@@ -9,7 +9,7 @@ import traceback
 from .loader import Repo, AnalysisError
 from .report import Check, write_error_evidence
 
-CLAIMED = ['C01', 'C02', 'C03', 'C04', 'C05', 'C07', 'C08', 'C09', 'C10', 'C11',
+CLAIMED = ['C01', 'C02', 'C03', 'C04', 'C05', 'C06', 'C07', 'C08', 'C09', 'C10', 'C11',
            'C12', 'C13', 'C14', 'C16', 'C17', 'C19']
 
 
